@@ -19,6 +19,11 @@ import protolib as P
 LEVEL = "proof"
 
 
+def regenerate(res):
+    """T21: the with-statement protocol of DigitalRFWriter -> coq/Gen/CtxMgrGen.v"""
+    common.regenerate_with(res, "ctxmgr2gallina", "CtxMgrGen.v", "T21: DigitalRFWriter.close / __enter__ / __exit__")
+
+
 def mixed_api(sp, apis):
     sp["apis"] = apis
     return sp
